@@ -174,6 +174,14 @@ impl Parse for RustLink {
         Ok(RustLink { path, typ, display })
     }
 }
+impl RustLink {
+    /// The least number of path segments a link of this kind has: the segments naming the item itself
+    /// (the crate and modules in front of them may be left out)
+    pub fn min_path_len(&self) -> usize {
+        self.typ.item_segments().max(1)
+    }
+}
+
 impl fmt::Display for RustLink {
     fn fmt(&self, f: &mut fmt::Formatter) -> fmt::Result {
         write!(f, "{}#{:?}", self.path, self.typ)
@@ -205,6 +213,31 @@ pub enum DocType {
     AssociatedTypeInTrait,
     AssociatedTypeInStruct,
     Typedef,
+}
+
+impl DocType {
+    /// How many trailing path segments name the item itself (the ones before them are the crate and modules)
+    fn item_segments(&self) -> usize {
+        use DocType::*;
+        match self {
+            Mod => 0,
+            Struct | Enum | Trait | Fn | Macro | Constant | Typedef => 1,
+            FnInEnum
+            | FnInStruct
+            | FnInTypedef
+            | FnInTrait
+            | DefaultFnInTrait
+            | EnumVariant
+            | StructField
+            | AssociatedTypeInEnum
+            | AssociatedTypeInStruct
+            | AssociatedTypeInTrait
+            | AssociatedConstantInEnum
+            | AssociatedConstantInStruct
+            | AssociatedConstantInTrait => 2,
+            EnumVariantField => 3,
+        }
+    }
 }
 
 #[derive(Default)]
@@ -244,25 +277,11 @@ impl DocsUrlGenerator {
 
         let mut elements = rust_link.path.elements.iter().peekable();
 
-        let module_depth = rust_link.path.elements.len()
-            - match rust_link.typ {
-                Mod => 0,
-                Struct | Enum | Trait | Fn | Macro | Constant | Typedef => 1,
-                FnInEnum
-                | FnInStruct
-                | FnInTypedef
-                | FnInTrait
-                | DefaultFnInTrait
-                | EnumVariant
-                | StructField
-                | AssociatedTypeInEnum
-                | AssociatedTypeInStruct
-                | AssociatedTypeInTrait
-                | AssociatedConstantInEnum
-                | AssociatedConstantInStruct
-                | AssociatedConstantInTrait => 2,
-                EnumVariantField => 3,
-            };
+        let module_depth = rust_link
+            .path
+            .elements
+            .len()
+            .saturating_sub(rust_link.typ.item_segments());
 
         for _ in 0..module_depth {
             r.push_str(elements.next().unwrap().as_str());
